@@ -1,1 +1,663 @@
+(* C27 — proofs about the model of lang/jobs.go. *)
+From Coq Require Import Lia List Arith ZArith.
 From Murex Require Import Base.Outcome Model.Jobs Check.C27.
+
+(* ------------------------------------------------------------------ *)
+(* membership *)
+
+Lemma mem_In p l : mem p l = true <-> In p l.
+Proof.
+  unfold mem. rewrite existsb_exists. split.
+  - intros [x [Hin Hx]]. apply Nat.eqb_eq in Hx. subst. exact Hin.
+  - intro H. exists p. split; [exact H|apply Nat.eqb_refl].
+Qed.
+
+Lemma mem_cons p q l : mem p (q :: l) = Nat.eqb p q || mem p l.
+Proof. reflexivity. Qed.
+
+(* ------------------------------------------------------------------ *)
+(* the declarative reading of GarbageCollect: clear finished entries, then
+   drop the trailing free slots *)
+
+Fixpoint trim (l : list (option nat)) : list (option nat) :=
+  match l with
+  | [] => []
+  | x :: r => match trim r, x with
+              | [], None => []
+              | r', _ => x :: r'
+              end
+  end.
+
+Lemma trim_cons_some p r : trim (Some p :: r) = Some p :: trim r.
+Proof. cbn [trim]. destruct (trim r); reflexivity. Qed.
+
+Lemma trim_cons_none r : trim (None :: r) = match trim r with [] => [] | _ :: _ => None :: trim r end.
+Proof. cbn [trim]. destruct (trim r); reflexivity. Qed.
+
+Lemma trim_cons_ne x r : trim r <> [] -> trim (x :: r) = x :: trim r.
+Proof. cbn [trim]. destruct (trim r); [congruence|]. destruct x; reflexivity. Qed.
+
+Lemma trim_nones l : Forall (fun x => x = None) l -> trim l = [].
+Proof.
+  induction 1 as [|x l Hx _ IH]; [reflexivity|]. subst x. cbn [trim]. rewrite IH. reflexivity.
+Qed.
+
+Lemma trim_nth l : forall k p, nth_error l k = Some (Some p) -> nth_error (trim l) k = Some (Some p).
+Proof.
+  induction l as [|x r IH]; intros k p H.
+  - destruct k; discriminate.
+  - destruct k as [|k'].
+    + cbn [nth_error] in H. injection H as ->. rewrite trim_cons_some. reflexivity.
+    + cbn [nth_error] in H. pose proof (IH _ _ H) as H'.
+      assert (trim r <> []) as Hne by (intro E; rewrite E in H'; destruct k'; discriminate).
+      rewrite (trim_cons_ne _ _ Hne). exact H'.
+Qed.
+
+Lemma trim_prefix l : exists t, l = trim l ++ t /\ Forall (fun x => x = None) t.
+Proof.
+  induction l as [|x r [t [Ht Hn]]].
+  - exists []. split; [reflexivity|constructor].
+  - destruct x as [p|].
+    + exists t. rewrite trim_cons_some. split; [cbn [app]; congruence|exact Hn].
+    + rewrite trim_cons_none. destruct (trim r) as [|y r'] eqn:E.
+      * exists (None :: t). cbn [app] in *. split; [congruence|constructor; auto].
+      * exists t. cbn [app] in *. split; [congruence|exact Hn].
+Qed.
+
+Lemma trim_nth_inv l k x : nth_error (trim l) k = Some x -> nth_error l k = Some x.
+Proof.
+  intro H. destruct (trim_prefix l) as [t [Ht _]].
+  assert (k < length (trim l)) as Hk by (apply nth_error_Some; congruence).
+  rewrite Ht. rewrite nth_error_app1; [exact H|exact Hk].
+Qed.
+
+Lemma trim_length l : length (trim l) <= length l.
+Proof.
+  destruct (trim_prefix l) as [t [Ht _]]. rewrite Ht at 2. rewrite app_length. lia.
+Qed.
+
+(* the trimmed slice never ends with a free slot *)
+Lemma trim_last l : match rev (trim l) with None :: _ => False | _ => True end.
+Proof.
+  induction l as [|x r IH]; [exact I|].
+  destruct x as [p|].
+  - rewrite trim_cons_some. cbn [rev]. destruct (rev (trim r)) as [|y ys]; [exact I|].
+    cbn [app]. destruct y; [exact I|exact IH].
+  - rewrite trim_cons_none. destruct (trim r) as [|y r'] eqn:E; [exact I|].
+    change (rev (None :: y :: r')) with (rev (y :: r') ++ [None]).
+    destruct (rev (y :: r')) as [|z zs] eqn:E2.
+    + apply (f_equal (@length _)) in E2. rewrite rev_length in E2. discriminate.
+    + cbn [app]. destruct z; [exact I|exact IH].
+Qed.
+
+(* the literal loop of GarbageCollect computes exactly that *)
+Definition scan_inv (n : nat) (running : bool) (last : option nat) (acc : list (option nat)) : Prop :=
+  if running then
+    trim acc <> [] /\ match last with
+                      | None => trim acc = acc
+                      | Some k => n <= k /\ trim acc = firstn (k - n) acc
+                      end
+  else Forall (fun x => x = None) acc /\ last = match acc with [] => None | _ :: _ => Some n end.
+
+Lemma scan_correct d rs : forall running last acc,
+  scan_inv (length rs) running last acc ->
+  (let '(sl, l') := gc_scan d rs (length rs - 1) running last acc in
+   match l' with None => sl | Some k => firstn k sl end)
+  = trim (rev (map (gc_clear d) rs) ++ acc).
+Proof.
+  induction rs as [|x rs' IH]; intros running last acc HG.
+  - cbn [gc_scan length map rev app]. unfold scan_inv in HG. destruct running.
+    + destruct HG as [_ HG]. destruct last as [k|].
+      * destruct HG as [_ HG]. rewrite Nat.sub_0_r in HG. symmetry; exact HG.
+      * symmetry; exact HG.
+    + destruct HG as [Hn Hl]. rewrite (trim_nones _ Hn). subst last. destruct acc; reflexivity.
+  - replace (length (x :: rs') - 1) with (length rs') by (cbn [length]; lia).
+    cbn [gc_scan]. rewrite <- Nat.sub_1_r.
+    cbn [map rev]. rewrite <- app_assoc. cbn [app].
+    apply IH. cbn [length] in HG. unfold scan_inv in *.
+    destruct (gc_clear d x) as [p|]; destruct running.
+    + destruct HG as [Hne HG]. rewrite trim_cons_some. split; [discriminate|].
+      destruct last as [k|].
+      * destruct HG as [Hle Ht]. split; [lia|].
+        replace (k - length rs') with (S (k - S (length rs'))) by lia.
+        cbn [firstn]. rewrite Ht. reflexivity.
+      * rewrite HG. reflexivity.
+    + destruct HG as [Hn Hl]. rewrite trim_cons_some, (trim_nones _ Hn). split; [discriminate|].
+      subst last. destruct acc as [|a acc'].
+      * reflexivity.
+      * split; [lia|]. replace (S (length rs') - length rs') with 1 by lia. reflexivity.
+    + destruct HG as [Hne HG]. rewrite (trim_cons_ne _ _ Hne). split; [discriminate|].
+      destruct last as [k|].
+      * destruct HG as [Hle Ht]. split; [lia|].
+        replace (k - length rs') with (S (k - S (length rs'))) by lia.
+        cbn [firstn]. rewrite Ht. reflexivity.
+      * rewrite HG. reflexivity.
+    + destruct HG as [Hn Hl]. split; [constructor; auto|reflexivity].
+Qed.
+
+Lemma gc_slots_spec d l : gc_slots d l = trim (map (gc_clear d) l).
+Proof.
+  unfold gc_slots.
+  assert (scan_inv (length (rev l)) false None []) as HG by (split; [constructor|reflexivity]).
+  pose proof (scan_correct d (rev l) false None [] HG) as H.
+  rewrite rev_length in H.
+  destruct (gc_scan d (rev l) (length l - 1) false None []) as [sl last].
+  rewrite H. rewrite map_rev, rev_involutive, app_nil_r. reflexivity.
+Qed.
+
+Lemma clear_some d x p : gc_clear d x = Some p -> x = Some p /\ mem p d = false.
+Proof.
+  destruct x as [q|]; cbn [gc_clear]; [|discriminate].
+  destruct (mem q d) eqn:E; [discriminate|]. intro H; injection H as ->. auto.
+Qed.
+
+Lemma clear_keep d p : mem p d = false -> gc_clear d (Some p) = Some p.
+Proof. cbn [gc_clear]. intros ->. reflexivity. Qed.
+
+(* GarbageCollect trims exactly the trailing finished entries: the result is a
+   prefix of the cleared table, what was cut off is all finished, no unfinished
+   job is lost or moved, and the result does not end with a free slot. *)
+Lemma gc_trims_exactly_trailing d l :
+  exists cut,
+    map (gc_clear d) l = gc_slots d l ++ cut /\
+    Forall (fun x => x = None) cut /\
+    (forall k p, nth_error l k = Some (Some p) -> mem p d = false ->
+                 nth_error (gc_slots d l) k = Some (Some p)) /\
+    match rev (gc_slots d l) with None :: _ => False | _ => True end.
+Proof.
+  rewrite gc_slots_spec.
+  destruct (trim_prefix (map (gc_clear d) l)) as [t [Ht Hn]].
+  exists t. split; [exact Ht|]. split; [exact Hn|]. split.
+  - intros k p H Hd. apply trim_nth. rewrite (map_nth_error (gc_clear d) _ _ H).
+    rewrite (clear_keep _ _ Hd). reflexivity.
+  - apply trim_last.
+Qed.
+
+(* ------------------------------------------------------------------ *)
+(* steps *)
+
+Definition slot_is (s : st) (k p : nat) : Prop := nth_error (slots s) k = Some (Some p).
+
+Lemma step_dead s o :
+  dead (fst (step s o)) = match o with Terminate p => p :: dead s | _ => dead s end.
+Proof. destruct o; reflexivity. Qed.
+
+Lemma dead_mono_step s o p : mem p (dead s) = true -> mem p (dead (fst (step s o))) = true.
+Proof.
+  rewrite step_dead. destruct o; auto. intro H. rewrite mem_cons, H. apply orb_true_r.
+Qed.
+
+Lemma stable_step s o k p :
+  slot_is s k p -> mem p (dead (fst (step s o))) = false -> slot_is (fst (step s o)) k p.
+Proof.
+  unfold slot_is. intros H Hd.
+  assert (k < length (slots s)) as Hk by (apply nth_error_Some; congruence).
+  destruct o; cbn [step fst slots dead] in *; try exact H.
+  - rewrite nth_error_app1; [exact H|exact Hk].
+  - rewrite nth_error_app1; [exact H|exact Hk].
+  - rewrite gc_slots_spec. apply trim_nth. rewrite (map_nth_error (gc_clear (dead s)) _ _ H).
+    rewrite (clear_keep _ _ Hd). reflexivity.
+Qed.
+
+(* where a slot's content can come from *)
+Lemma slot_step_inv s o k p :
+  slot_is (fst (step s o)) k p -> slot_is s k p \/ (o = Add p /\ k = length (slots s)).
+Proof.
+  unfold slot_is. intro H. destruct o; cbn [step fst slots] in H; try (left; exact H).
+  - destruct (lt_dec k (length (slots s))) as [Hk|Hk].
+    + rewrite nth_error_app1 in H by exact Hk. left; exact H.
+    + rewrite nth_error_app2 in H by lia.
+      destruct (k - length (slots s)) as [|j] eqn:E.
+      * cbn [nth_error] in H. injection H as ->. right. split; [reflexivity|lia].
+      * cbn [nth_error] in H. destruct j; discriminate.
+  - destruct (lt_dec k (length (slots s))) as [Hk|Hk].
+    + rewrite nth_error_app1 in H by exact Hk. left; exact H.
+    + rewrite nth_error_app2 in H by lia.
+      destruct (k - length (slots s)) as [|j] eqn:E.
+      * cbn [nth_error] in H. discriminate.
+      * cbn [nth_error] in H. destruct j; discriminate.
+  - rewrite gc_slots_spec in H. apply trim_nth_inv in H. rewrite nth_error_map in H.
+    destruct (nth_error (slots s) k) as [x|] eqn:E; [|discriminate].
+    cbn [option_map] in H. injection H as H. apply clear_some in H. destruct H as [-> _].
+    left; reflexivity.
+Qed.
+
+Lemma step_length s o : o <> GC -> length (slots s) <= length (slots (fst (step s o))).
+Proof.
+  intro H. destruct o; cbn [step fst slots]; try rewrite app_length; try lia. congruence.
+Qed.
+
+Lemma run_app s a b : run s (a ++ b) = run (run s a) b.
+Proof. revert s; induction a as [|o a IH]; intro s; cbn [app run]; auto. Qed.
+
+Lemma dead_mono_run ops : forall s p, mem p (dead s) = true -> mem p (dead (run s ops)) = true.
+Proof.
+  induction ops as [|o ops IH]; intros s p H; cbn [run]; [exact H|].
+  apply IH. apply dead_mono_step. exact H.
+Qed.
+
+Lemma stable_run ops : forall s k p,
+  slot_is s k p -> mem p (dead (run s ops)) = false -> slot_is (run s ops) k p.
+Proof.
+  induction ops as [|o ops IH]; intros s k p H Hd; cbn [run] in *; [exact H|].
+  apply IH; [|exact Hd]. apply stable_step; [exact H|].
+  destruct (mem p (dead (fst (step s o)))) eqn:E; [|reflexivity].
+  rewrite (dead_mono_run ops _ _ E) in Hd. discriminate.
+Qed.
+
+(* ------------------------------------------------------------------ *)
+(* T1: a running job's id never changes, whatever happens in between *)
+Lemma id_stable_while_running s0 ops1 ops2 k p :
+  slot_is (run s0 ops1) k p ->
+  mem p (dead (run s0 (ops1 ++ ops2))) = false ->
+  slot_is (run s0 (ops1 ++ ops2)) k p.
+Proof. rewrite run_app. apply stable_run. Qed.
+
+(* T4: an id is handed out again only after every job that held that id or a
+   higher one has finished.  The id the next Add hands out is length+1; if some
+   earlier state had job q at id k'+1 >= that, q is dead by now. *)
+Lemma id_reuse_only_after_suffix_finished s0 ops0 ops1 k' q :
+  slot_is (run s0 ops0) k' q ->
+  length (slots (run s0 (ops0 ++ ops1))) <= k' ->
+  mem q (dead (run s0 (ops0 ++ ops1))) = true.
+Proof.
+  intros H Hl. destruct (mem q (dead (run s0 (ops0 ++ ops1)))) eqn:E; [reflexivity|].
+  pose proof (id_stable_while_running _ _ _ _ _ H E) as H'. unfold slot_is in H'.
+  assert (k' < length (slots (run s0 (ops0 ++ ops1)))) by (apply nth_error_Some; congruence).
+  lia.
+Qed.
+
+(* ------------------------------------------------------------------ *)
+(* Get / GetLatest *)
+
+Lemma get_ok s n p :
+  get s n = Ok p ->
+  (1 <= n)%Z /\ slot_is s (Z.to_nat (n - 1)) p /\ mem p (dead s) = false.
+Proof.
+  unfold get, slot_is. destruct (Z.ltb_spec n 1); [discriminate|].
+  destruct (n >? Z.of_nat (length (slots s)))%Z; [discriminate|].
+  destruct (nth_error (slots s) (Z.to_nat (n - 1))) as [x|] eqn:E; [|discriminate].
+  destruct x as [q|]; cbn [finished]; [|discriminate].
+  destruct (mem q (dead s)) eqn:Hd; [discriminate|]. intro Hp; injection Hp as ->. auto.
+Qed.
+
+Lemma get_complete s k q :
+  1 <= k -> slot_is s (k - 1) q -> mem q (dead s) = false -> get s (Z.of_nat k) = Ok q.
+Proof.
+  unfold get, slot_is. intros Hk H Hd.
+  assert (k - 1 < length (slots s)) as Hlt by (apply nth_error_Some; congruence).
+  destruct (Z.ltb_spec (Z.of_nat k) 1); [lia|].
+  rewrite Z.gtb_ltb. destruct (Z.ltb_spec (Z.of_nat (length (slots s))) (Z.of_nat k)); [lia|].
+  replace (Z.to_nat (Z.of_nat k - 1)) with (k - 1) by lia.
+  rewrite H. cbn [finished]. rewrite Hd. reflexivity.
+Qed.
+
+Lemma get_never_panics s n : get s n <> Panic /\ get s n <> OutOfFuel.
+Proof.
+  unfold get. destruct (Z.ltb_spec n 1); [split; discriminate|].
+  rewrite Z.gtb_ltb. destruct (Z.ltb_spec (Z.of_nat (length (slots s))) n); [split; discriminate|].
+  destruct (nth_error (slots s) (Z.to_nat (n - 1))) as [x|] eqn:E.
+  - destruct x as [q|]; cbn [finished]; [destruct (mem q (dead s))|]; split; discriminate.
+  - apply nth_error_None in E. lia.
+Qed.
+
+Lemma list_from_app d l1 : forall l2 i,
+  list_from d i (l1 ++ l2) = list_from d i l1 ++ list_from d (i + length l1) l2.
+Proof.
+  induction l1 as [|a l1 IH]; intros l2 i; cbn [app list_from length].
+  - rewrite Nat.add_0_r; reflexivity.
+  - rewrite IH. replace (S i + length l1) with (i + S (length l1)) by lia.
+    destruct (finished d a); [reflexivity|]. destruct a; reflexivity.
+Qed.
+
+Lemma list_from_In d l : forall i k p,
+  In (k, p) (list_from d i l) <-> i <= k /\ nth_error l (k - i) = Some (Some p) /\ mem p d = false.
+Proof.
+  induction l as [|x l IH]; intros i k p.
+  - cbn [list_from In]. split; [tauto|]. intros [_ [H _]]. destruct (k - i); discriminate.
+  - cbn [list_from].
+    assert (forall q, (S i <= k /\ nth_error l (k - S i) = Some (Some p) /\ mem p d = false)
+                      \/ (k = i /\ x = Some q /\ q = p /\ mem p d = false)
+                      <-> (i <= k /\ nth_error (x :: l) (k - i) = Some (Some p) /\ mem p d = false)
+                          /\ (k = i -> x = Some q)) as Hsplit.
+    { intro q. split.
+      - intros [[H1 [H2 H3]]|[H1 [H2 [H3 H4]]]].
+        + split; [|lia]. split; [lia|]. split; [|exact H3].
+          replace (k - i) with (S (k - S i)) by lia. exact H2.
+        + subst. split; [|auto]. split; [lia|]. rewrite Nat.sub_diag. auto.
+      - intros [[H1 [H2 H3]] H4]. destruct (Nat.eq_dec k i) as [E|E].
+        + right. subst k. rewrite Nat.sub_diag in H2. cbn [nth_error] in H2.
+          specialize (H4 eq_refl). subst x. injection H2 as ->. auto.
+        + left. split; [lia|]. split; [|exact H3].
+          replace (k - i) with (S (k - S i)) in H2 by lia. exact H2. }
+    destruct x as [q|]; cbn [finished].
+    + destruct (mem q d) eqn:Hq.
+      * rewrite IH. split.
+        -- intro H. apply (Hsplit q). left; exact H.
+        -- intros H. destruct (Nat.eq_dec k i) as [E|E].
+           ++ subst k. destruct H as [_ [H2 H3]]. rewrite Nat.sub_diag in H2. cbn [nth_error] in H2.
+              injection H2 as ->. congruence.
+           ++ destruct H as [H1 [H2 H3]]. split; [lia|]. split; [|exact H3].
+              replace (k - i) with (S (k - S i)) in H2 by lia. exact H2.
+      * cbn [In]. rewrite IH. split.
+        -- intros [H|H].
+           ++ injection H as -> ->. split; [lia|]. rewrite Nat.sub_diag. auto.
+           ++ destruct H as [H1 [H2 H3]]. split; [lia|]. split; [|exact H3].
+              replace (k - i) with (S (k - S i)) by lia. exact H2.
+        -- intros [H1 [H2 H3]]. destruct (Nat.eq_dec k i) as [E|E].
+           ++ left. subst k. rewrite Nat.sub_diag in H2. cbn [nth_error] in H2.
+              injection H2 as ->. reflexivity.
+           ++ right. split; [lia|]. split; [|exact H3].
+              replace (k - i) with (S (k - S i)) in H2 by lia. exact H2.
+    + rewrite IH. split.
+      * intros [H1 [H2 H3]]. split; [lia|]. split; [|exact H3].
+        replace (k - i) with (S (k - S i)) by lia. exact H2.
+      * intros [H1 [H2 H3]]. destruct (Nat.eq_dec k i) as [E|E].
+        -- subst k. rewrite Nat.sub_diag in H2. discriminate.
+        -- split; [lia|]. split; [|exact H3].
+           replace (k - i) with (S (k - S i)) in H2 by lia. exact H2.
+Qed.
+
+(* T3a: List is exactly the unfinished slots, with id = index+1 *)
+Lemma list_jobs_In s k p :
+  In (k, p) (list_jobs s) <-> 1 <= k /\ slot_is s (k - 1) p /\ mem p (dead s) = false.
+Proof. apply list_from_In. Qed.
+
+Lemma list_from_ids d l : forall lo i, lo < i -> ids_increasing lo (map fst (list_from d i l)) = true.
+Proof.
+  induction l as [|x l IH]; intros lo i H; cbn [list_from]; [reflexivity|].
+  destruct (finished d x); [apply IH; lia|].
+  destruct x as [p|]; [|apply IH; lia].
+  cbn [map fst ids_increasing]. apply andb_true_intro; split; [apply Nat.ltb_lt; exact H|apply IH; lia].
+Qed.
+
+Lemma latest_list d i l :
+  match latest_scan d (rev l) with
+  | Ok p => exists k, last_entry (list_from d i l) = Some (k, p)
+  | Err _ => list_from d i l = []
+  | _ => False
+  end.
+Proof.
+  induction l as [|x l IH] using rev_ind; [reflexivity|].
+  rewrite rev_unit. cbn [latest_scan]. rewrite list_from_app. cbn [list_from].
+  destruct (finished d x) eqn:F.
+  - rewrite app_nil_r. exact IH.
+  - destruct x as [p|]; [|discriminate F]. exists (i + length l).
+    unfold last_entry. rewrite rev_unit. reflexivity.
+Qed.
+
+(* T2: Get / GetLatest never return a finished job (and never panic) *)
+Lemma get_never_returns_finished s n p :
+  get s n = Ok p -> mem p (dead s) = false /\ In (Z.to_nat n, p) (list_jobs s).
+Proof.
+  intro H. apply get_ok in H. destruct H as [Hn [Hs Hd]]. split; [exact Hd|].
+  apply list_jobs_In. split; [lia|]. split; [|exact Hd].
+  replace (Z.to_nat n - 1) with (Z.to_nat (n - 1)) by lia. exact Hs.
+Qed.
+
+Lemma latest_never_returns_finished s p :
+  latest s = Ok p -> mem p (dead s) = false /\ exists k, last_entry (list_jobs s) = Some (k, p).
+Proof.
+  unfold latest, list_jobs. intro H. pose proof (latest_list (dead s) 1 (slots s)) as L.
+  rewrite H in L. destruct L as [k Hk]. split; [|exists k; exact Hk].
+  assert (In (k, p) (list_from (dead s) 1 (slots s))) as Hin.
+  { unfold last_entry in Hk. destruct (rev (list_from (dead s) 1 (slots s))) as [|e r] eqn:E; [discriminate|].
+    injection Hk as ->. apply in_rev. rewrite E. left; reflexivity. }
+  apply list_from_In in Hin. tauto.
+Qed.
+
+(* ------------------------------------------------------------------ *)
+(* history-level: which processes are in the table *)
+
+Fixpoint added_in (ops : list op) : list nat :=
+  match ops with
+  | [] => []
+  | Add p :: r => p :: added_in r
+  | _ :: r => added_in r
+  end.
+Fixpoint killed_in (ops : list op) : list nat :=
+  match ops with
+  | [] => []
+  | Terminate p :: r => p :: killed_in r
+  | _ :: r => killed_in r
+  end.
+
+Lemma added_in_In p ops : In p (added_in ops) <-> In (Add p) ops.
+Proof.
+  induction ops as [|o r IH]; [tauto|]. destruct o; cbn [added_in In]; rewrite ?IH;
+    split; intro H; try (right; exact H); try (destruct H as [H|H]; [discriminate H|exact H]).
+  - destruct H as [H|H]; [left; congruence|right; exact H].
+  - destruct H as [H|H]; [left; congruence|right; exact H].
+Qed.
+
+Lemma killed_in_In p ops : In p (killed_in ops) <-> In (Terminate p) ops.
+Proof.
+  induction ops as [|o r IH]; [tauto|]. destruct o; cbn [killed_in In]; rewrite ?IH;
+    split; intro H; try (right; exact H); try (destruct H as [H|H]; [discriminate H|exact H]).
+  - destruct H as [H|H]; [left; congruence|right; exact H].
+  - destruct H as [H|H]; [left; congruence|right; exact H].
+Qed.
+
+(* ------------------------------------------------------------------ *)
+(* the invariant tying the model state to the history bookkeeping of spec_ok *)
+
+Record Inv (s : st) (h : hist) : Prop := {
+  inv_dead : dead s = h_dead h;
+  inv_prev : list_jobs s = h_prev h;
+  inv_added : forall k p, slot_is s k p -> In p (h_added h);
+  inv_kept : forall p, In p (h_added h) -> mem p (dead s) = false -> exists k, slot_is s k p;
+  inv_ever : forall k q, In (k, q) (h_ever h) ->
+                         mem q (dead s) = true \/ (1 <= k /\ slot_is s (k - 1) q)
+}.
+
+Lemma inv0 : Inv st0 hist0.
+Proof.
+  split; try reflexivity.
+  - intros k p H. unfold slot_is in H. destruct k; discriminate.
+  - intros p [].
+  - intros k q [].
+Qed.
+
+Definition obs_of (s' : st) (r : res) : step_obs :=
+  {| so_res := r; so_list := list_jobs s'; so_raw := slots s' |}.
+
+Lemma dead_after_eq s h o : dead s = h_dead h -> dead (fst (step s o)) = dead_after h o.
+Proof. intro H. rewrite step_dead. unfold dead_after. destruct o; rewrite H; reflexivity. Qed.
+
+Lemma inv_step s h o :
+  Inv s h -> Inv (fst (step s o)) (hist_after h o (obs_of (fst (step s o)) (snd (step s o)))).
+Proof.
+  intros [Hd Hp Ha Hk He]. set (s' := fst (step s o)).
+  assert (forall p, mem p (dead s') = false -> mem p (dead s) = false) as Hmono.
+  { intros p H. destruct (mem p (dead s)) eqn:E; [|reflexivity].
+    unfold s' in H. rewrite (dead_mono_step s o p E) in H. discriminate. }
+  split; cbn [hist_after h_added h_dead h_prev h_ever obs_of so_list].
+  - apply dead_after_eq. exact Hd.
+  - reflexivity.
+  - intros k p H. apply slot_step_inv in H. unfold added_after. destruct H as [H|[-> _]].
+    + apply Ha in H. destruct o; try exact H. right; exact H.
+    + left; reflexivity.
+  - intros p Hin Hnd. unfold added_after in Hin.
+    assert (In p (h_added h) -> exists k, slot_is s' k p) as Hold.
+    { intro Hin'. destruct (Hk p Hin' (Hmono _ Hnd)) as [k Hs]. exists k.
+      apply stable_step; assumption. }
+    destruct o; try (apply Hold; exact Hin).
+    destruct Hin as [->|Hin]; [|apply Hold; exact Hin].
+    exists (length (slots s)). unfold slot_is, s'. cbn [step fst slots].
+    rewrite nth_error_app2 by lia. rewrite Nat.sub_diag. reflexivity.
+  - intros k q Hin. apply in_app_or in Hin. destruct Hin as [Hin|Hin].
+    + apply list_jobs_In in Hin. right. tauto.
+    + destruct (mem q (dead s')) eqn:E; [left; reflexivity|right].
+      destruct (He k q Hin) as [Hq|[H1 H2]].
+      * rewrite (Hmono _ E) in Hq. discriminate.
+      * split; [exact H1|]. apply stable_step; assumption.
+Qed.
+
+(* every entry of the new List() was in the old one, or sits at the new top id *)
+Lemma list_step_inv s o e :
+  In e (list_jobs (fst (step s o))) ->
+  In e (list_jobs s) \/ fst e = S (length (slots s)).
+Proof.
+  destruct e as [k p]. intro H. apply list_jobs_In in H. destruct H as [H1 [H2 H3]].
+  apply slot_step_inv in H2. destruct H2 as [H2|[_ H2]].
+  - left. apply list_jobs_In. split; [exact H1|]. split; [exact H2|].
+    destruct (mem p (dead s)) eqn:E; [|reflexivity].
+    rewrite (dead_mono_step s o p E) in H3. discriminate.
+  - right. cbn [fst]. lia.
+Qed.
+
+Lemma pair_mem_In e l : pair_mem e l = true <-> In e l.
+Proof.
+  unfold pair_mem. rewrite existsb_exists. split.
+  - intros [x [Hin Hx]]. unfold pair_eqb in Hx. apply andb_prop in Hx. destruct Hx as [H1 H2].
+    apply Nat.eqb_eq in H1. apply Nat.eqb_eq in H2. destruct e, x. cbn [fst snd] in *. subst. exact Hin.
+  - intro H. exists e. split; [exact H|]. unfold pair_eqb. rewrite !Nat.eqb_refl. reflexivity.
+Qed.
+
+Lemma res_ok_step s o :
+  res_ok o (snd (step s o)) (list_jobs (fst (step s o))) = true.
+Proof.
+  destruct o; cbn [step fst snd res_ok]; try reflexivity.
+  - (* Get *)
+    destruct (get s n) as [p|e| |] eqn:G; cbn [res_of].
+    + apply get_ok in G. destruct G as [Hn [Hs Hd]]. apply existsb_exists.
+      exists (Z.to_nat n, p). split.
+      * apply list_jobs_In. split; [lia|]. split; [|exact Hd].
+        replace (Z.to_nat n - 1) with (Z.to_nat (n - 1)) by lia. exact Hs.
+      * cbn [fst snd]. rewrite Nat.eqb_refl, andb_true_r. apply Z.eqb_eq. lia.
+    + apply negb_true_iff. destruct (existsb _ (list_jobs s)) eqn:E; [|reflexivity].
+      apply existsb_exists in E. destruct E as [[k q] [Hin Hk]]. cbn [fst] in Hk.
+      apply Z.eqb_eq in Hk. apply list_jobs_In in Hin. destruct Hin as [H1 [H2 H3]].
+      rewrite <- Hk, (get_complete _ _ _ H1 H2 H3) in G. discriminate.
+    + destruct (get_never_panics s n) as [H _]. congruence.
+    + destruct (get_never_panics s n) as [_ H]. congruence.
+  - (* Latest *)
+    unfold latest, list_jobs. pose proof (latest_list (dead s) 1 (slots s)) as L.
+    destruct (latest_scan (dead s) (rev (slots s))) as [p|e| |]; cbn [res_of]; try contradiction.
+    + destruct L as [k Hk]. rewrite Hk. cbn [snd]. apply Nat.eqb_refl.
+    + rewrite L. reflexivity.
+Qed.
+
+Lemma gc_ok_step s : gc_ok (dead s) (gc_slots (dead s) (slots s)) = true.
+Proof.
+  unfold gc_ok. apply andb_true_intro. split.
+  - apply forallb_forall. intros x Hin. destruct x as [p|]; [|reflexivity].
+    apply In_nth_error in Hin. destruct Hin as [k Hk].
+    rewrite gc_slots_spec in Hk. apply trim_nth_inv in Hk. rewrite nth_error_map in Hk.
+    destruct (nth_error (slots s) k) as [y|]; [|discriminate]. cbn [option_map] in Hk.
+    injection Hk as Hk. apply clear_some in Hk. destruct Hk as [_ Hk]. rewrite Hk. reflexivity.
+  - rewrite gc_slots_spec. pose proof (trim_last (map (gc_clear (dead s)) (slots s))) as H.
+    destruct (rev (trim (map (gc_clear (dead s)) (slots s)))) as [|y ys]; [reflexivity|].
+    destruct y; [reflexivity|contradiction].
+Qed.
+
+Lemma step_ok_model s h o :
+  Inv s h -> step_ok h o (obs_of (fst (step s o)) (snd (step s o))) = true.
+Proof.
+  intro HI. pose proof (inv_step s h o HI) as HI'. destruct HI as [Hd Hp Ha Hk He].
+  destruct HI' as [Hd' _ Ha' Hk' _].
+  cbn [hist_after h_added h_dead h_prev h_ever obs_of so_list] in *.
+  set (s' := fst (step s o)) in *.
+  unfold step_ok. cbn [obs_of so_list so_res so_raw]. fold s'.
+  rewrite <- Hd'.
+  repeat (apply andb_true_intro; split).
+  - apply forallb_forall. intros [k p] Hin. cbn [snd]. apply list_jobs_In in Hin.
+    destruct Hin as [_ [H2 H3]]. rewrite H3. rewrite andb_true_r. apply mem_In. eapply Ha'; exact H2.
+  - apply forallb_forall. intros p Hin. destruct (mem p (dead s')) eqn:E; [reflexivity|].
+    cbn [orb]. destruct (Hk' p Hin E) as [k Hs]. apply mem_In. apply in_map_iff.
+    exists (S k, p). split; [reflexivity|]. apply list_jobs_In. split; [lia|].
+    split; [|exact E]. replace (S k - 1) with k by lia. exact Hs.
+  - apply list_from_ids. lia.
+  - apply forallb_forall. intros [k p] Hin. cbn [snd]. rewrite <- Hp in Hin.
+    destruct (mem p (dead s')) eqn:E; [reflexivity|]. cbn [orb]. apply pair_mem_In.
+    apply list_jobs_In in Hin. destruct Hin as [H1 [H2 H3]]. apply list_jobs_In.
+    split; [exact H1|]. split; [|exact E]. apply stable_step; assumption.
+  - apply forallb_forall. intros e Hin. destruct (list_step_inv _ _ _ Hin) as [Hold|Hnew].
+    + rewrite <- Hp. apply orb_true_iff. left. apply pair_mem_In. exact Hold.
+    + apply orb_true_iff. right. apply forallb_forall. intros [k' q] Hin'. cbn [fst snd].
+      destruct (mem q (dead s')) eqn:E; [apply orb_true_r|]. rewrite orb_false_r.
+      apply Nat.ltb_lt. rewrite Hnew.
+      destruct (He k' q Hin') as [Hq|[H1 H2]].
+      * unfold s' in E. rewrite (dead_mono_step s o q Hq) in E. discriminate.
+      * unfold slot_is in H2.
+        assert (k' - 1 < length (slots s)) by (apply nth_error_Some; congruence). lia.
+  - apply res_ok_step.
+  - destruct o; try reflexivity. unfold s'. cbn [step fst slots dead]. apply gc_ok_step.
+Qed.
+
+Lemma trace_cons s o ops :
+  trace s (o :: ops) = obs_of (fst (step s o)) (snd (step s o)) :: trace (fst (step s o)) ops.
+Proof. cbn [trace]. destruct (step s o) as [s' r]. reflexivity. Qed.
+
+Lemma trace_ok_model ops : forall s h, Inv s h -> trace_ok h ops (trace s ops) = true.
+Proof.
+  induction ops as [|o ops IH]; intros s h HI; [reflexivity|].
+  rewrite trace_cons. cbn [trace_ok]. apply andb_true_intro. split.
+  - apply step_ok_model. exact HI.
+  - apply IH. apply inv_step. exact HI.
+Qed.
+
+(* Headline: for every history, what the model does satisfies the predicate the
+   check evaluates on the implementation's observations. *)
+Lemma model_meets_spec ops : spec_ok {| c_ops := ops; c_obs := trace st0 ops |} = true.
+Proof. unfold spec_ok. cbn [c_ops c_obs]. apply trace_ok_model. exact inv0. Qed.
+
+(* ------------------------------------------------------------------ *)
+(* T3b: from the empty table, List shows exactly the processes that were added
+   and not terminated *)
+
+Fixpoint hist_of (h : hist) (s : st) (ops : list op) : hist :=
+  match ops with
+  | [] => h
+  | o :: r => hist_of (hist_after h o (obs_of (fst (step s o)) (snd (step s o)))) (fst (step s o)) r
+  end.
+
+Lemma inv_run ops : forall s h, Inv s h -> Inv (run s ops) (hist_of h s ops).
+Proof.
+  induction ops as [|o ops IH]; intros s h HI; cbn [run hist_of]; [exact HI|].
+  apply IH. apply inv_step. exact HI.
+Qed.
+
+Lemma hist_of_added ops : forall h s, h_added (hist_of h s ops) = rev (added_in ops) ++ h_added h.
+Proof.
+  induction ops as [|o ops IH]; intros h s; cbn [hist_of added_in]; [reflexivity|].
+  rewrite IH. cbn [hist_after h_added]. unfold added_after.
+  destruct o; try reflexivity. cbn [rev]. rewrite <- app_assoc. reflexivity.
+Qed.
+
+Lemma hist_of_dead ops : forall h s, h_dead (hist_of h s ops) = rev (killed_in ops) ++ h_dead h.
+Proof.
+  induction ops as [|o ops IH]; intros h s; cbn [hist_of killed_in]; [reflexivity|].
+  rewrite IH. cbn [hist_after h_dead]. unfold dead_after.
+  destruct o; try reflexivity. cbn [rev]. rewrite <- app_assoc. reflexivity.
+Qed.
+
+Lemma list_is_exactly_running ops p :
+  In p (map snd (list_jobs (run st0 ops))) <-> In (Add p) ops /\ ~ In (Terminate p) ops.
+Proof.
+  pose proof (inv_run ops st0 hist0 inv0) as [Hd _ Ha Hk _].
+  rewrite hist_of_added in Ha, Hk. rewrite hist_of_dead in Hd.
+  cbn [hist0 h_added h_dead] in *. rewrite app_nil_r in *.
+  assert (mem p (dead (run st0 ops)) = true <-> In (Terminate p) ops) as Hdead.
+  { rewrite Hd, mem_In, <- in_rev. apply killed_in_In. }
+  split.
+  - intro H. apply in_map_iff in H. destruct H as [[k q] [E Hin]]. cbn [snd] in E. subst q.
+    apply list_jobs_In in Hin. destruct Hin as [_ [H2 H3]]. split.
+    + apply added_in_In. apply in_rev. eapply Ha; exact H2.
+    + intro Ht. apply Hdead in Ht. congruence.
+  - intros [H1 H2].
+    assert (mem p (dead (run st0 ops)) = false) as E.
+    { destruct (mem p (dead (run st0 ops))) eqn:E; [|reflexivity]. exfalso. apply H2. apply Hdead. reflexivity. }
+    destruct (Hk p) as [k Hs]; [apply in_rev; rewrite rev_involutive; apply added_in_In; exact H1|exact E|].
+    apply in_map_iff. exists (S k, p). split; [reflexivity|]. apply list_jobs_In.
+    split; [lia|]. split; [|exact E]. replace (S k - 1) with k by lia. exact Hs.
+Qed.
+
+(* the model never panics *)
+Lemma step_never_panics s o : snd (step s o) <> RPanic.
+Proof.
+  destruct o; cbn [step snd]; try discriminate.
+  - destruct (get_never_panics s n) as [H1 H2]. destruct (get s n); cbn [res_of]; congruence.
+  - unfold latest. pose proof (latest_list (dead s) 1 (slots s)) as L.
+    destruct (latest_scan (dead s) (rev (slots s))); cbn [res_of]; try discriminate; contradiction.
+Qed.
